@@ -68,24 +68,24 @@ package graph
 //@     invariant[C13] forall i int :: 0 <= i && i < len(res) ==> res[i] != nil && len(res[i].children) == 0
 
 //@ func (*vertex).descendents
-//@   except precondition#1 : undischarged on the reference tree (engine limit or missing callee contract), not claimed
+//@   except precondition@1d1790#1 : undischarged on the reference tree (engine limit or missing callee contract), not claimed
 //@   nopanic[C01,C13]
 //@   requires vwf(v)
 
 //@ func CheckCycle
-//@   except nilrecv#1, precondition#2 : undischarged on the reference tree (engine limit or missing callee contract), not claimed
+//@   except nilrecv@dd3a09#1, precondition@dd3a09#1 : undischarged on the reference tree (engine limit or missing callee contract), not claimed
 //@   nopanic[C01,C10]
 //@   requires project != nil
 
 //@ func (*graph).checkCycle
-//@   except precondition#1 : undischarged on the reference tree (engine limit or missing callee contract), not claimed
+//@   except precondition@affed9#1 : undischarged on the reference tree (engine limit or missing callee contract), not claimed
 //@   nopanic[C01,C10,C13]
 //@   requires gwf(g)
 
 // ENGINE LIMITS (see report): slices.Index is modelled by its range only (no "-1 ==> absent"), and a loop
 // that contains a call havocs whole heap classes, so the C10 clauses below and their invariants are inactive.
 //@ func searchCycle
-//@   except precondition#1 : undischarged on the reference tree (engine limit or missing callee contract), not claimed
+//@   except precondition@2f8638#1 : undischarged on the reference tree (engine limit or missing callee contract), not claimed
 //@   nopanic[C01,C10,C13]
 //@?  assigns path.*
 //@?  ensures[C10,C13] err == nil ==> forall c string, i int :: has(v.children, c) && 0 <= i && i < len(path) ==> path[i] != c
@@ -99,8 +99,8 @@ package graph
 //@     invariant[C10] -1 <= rangeindex && rangeindex < len(names)
 
 //@ func newGraph
-//@   except nilderef#20, nilderef#21, nilmap#1, nilmap#2 : undischarged on the reference tree (engine limit or missing callee contract), not claimed
-//@   except precondition#1 : undischarged on the reference tree (engine limit or missing callee contract), not claimed
+//@   except nilderef@3ff874#1, nilderef@83862a#1, nilmap@3ff874#1, nilmap@83862a#1 : undischarged on the reference tree (engine limit or missing callee contract), not claimed
+//@   except precondition@7a4dbf#1 : undischarged on the reference tree (engine limit or missing callee contract), not claimed
 //@   nopanic[C01,C10,C13]
 //@   requires project != nil
 //@?   ensures[C10,C13] err == nil ==> gwf(result.0)   // undischarged on the reference tree: not claimed
@@ -153,7 +153,7 @@ package graph
 
 // a cyclic graph (or a missing required dependency) is refused before any visit: no result map
 //@ func CollectInDependencyOrder
-//@   except nilfunc#1, precondition#2, precondition#3, precondition#4 : undischarged on the reference tree (engine limit or missing callee contract), not claimed
+//@   except nilfunc@944ab7#1, precondition@a09e1c#1, precondition@944ab7#1, precondition@944ab7#2 : undischarged on the reference tree (engine limit or missing callee contract), not claimed
 //@   nopanic[C01,C13]
 //@   requires project != nil && fn != nil
 //@   requires forall i int :: 0 <= i && i < len(options) ==> options[i] != nil
@@ -161,7 +161,7 @@ package graph
 //@     invariant -1 <= rangeindex && rangeindex < len(options)
 
 //@ func walk
-//@   except closure-precondition#1, nilderef#14, nilderef#18, precondition#1, precondition#2 : undischarged on the reference tree (engine limit or missing callee contract), not claimed
+//@   except closure-precondition#1, nilderef@9b03ce#3, nilderef@2c9d06#4, precondition@88d92c#1, precondition@bcd2db#1 : undischarged on the reference tree (engine limit or missing callee contract), not claimed
 //@   nopanic[C01,C13]
 //@   requires gwf(g) && t != nil && twf(t) && t.visitor != nil
 // C13/C19 bounded and live: the errgroup runs the coordinator goroutine plus the visitors, so its limit
@@ -170,7 +170,7 @@ package graph
 //@   callsite[C13,C19] (*golang.org/x/sync/errgroup.Group).SetLimit : arg1 == t.Options.maxConcurrency + 1
 
 //@ func walk$1
-//@   except nilderef#2, nilrecv#1, nilrecv#2, panic#1, precondition#1, precondition#2 : undischarged on the reference tree (engine limit or missing callee contract), not claimed
+//@   except nilderef@ede950#2, nilrecv@3175a9#1, nilrecv@dd4216#1, panic#1, precondition@3175a9#1, precondition@dd4216#1 : undischarged on the reference tree (engine limit or missing callee contract), not claimed
 //@   nopanic[C01,C13]
 //@   requires t != nil && twf(t) && t.visitor != nil
 
